@@ -696,6 +696,60 @@ def run_stops_early(ctx):
              'exits with its own code at the hang-up: that code is returned' % n)
 
 
+def status_before_flag(ctx, report=True):
+    """`terminated` is pexpect's record that it has observed the child's end: at the instant it becomes true - where another
+    thread polling it, or a signal handler, may look - exactly one of exitstatus / signalstatus is already set and is the
+    child's fate.  The observer inside the call is a __setattr__ hook of a subclass; pty transport."""
+    import pexpect, sys
+
+    class Watched(pexpect.spawn):
+        snaps = None
+
+        def __setattr__(self, name, value):
+            object.__setattr__(self, name, value)
+            if name == 'terminated' and value is True and self.snaps is not None:
+                self.snaps.append((getattr(self, 'exitstatus', None), getattr(self, 'signalstatus', None)))
+    bad = []
+    for how in ('wait', 'isalive', 'close'):
+        if how == 'close':
+            c = Watched(sys.executable, ['-c', 'import time; time.sleep(60)'], timeout=10)
+            want = None
+        else:
+            c = Watched(sys.executable, ['-c', 'import sys; sys.exit(3)' if how == 'wait' else
+                                         'import os, signal; os.kill(os.getpid(), signal.SIGKILL)'], timeout=10)
+            want = (3, None) if how == 'wait' else (None, signal.SIGKILL)
+        c.snaps = []
+        try:
+            if how == 'wait':
+                c.wait()
+            elif how == 'isalive':
+                end = time.time() + 10
+                while c.isalive() and time.time() < end:
+                    time.sleep(0.02)
+            else:
+                c.close(force=True)
+        except pexpect.ExceptionPexpect:
+            pass
+        snaps = list(c.snaps)
+        c.snaps = None
+        try:
+            c.close(force=True)
+        except Exception:
+            pass
+        for es, ss in snaps:
+            if (es is None) == (ss is None) or (want is not None and (es, ss) != want):
+                bad.append({'observed_through': how, 'at_the_instant_terminated_became_true': {'exitstatus': es, 'signalstatus': ss},
+                            'child_fate': want})
+                break
+    if report:
+        for b in bad:
+            ctx.fail('C09:terminated-set-before-the-status', {'status_before_flag': b['observed_through']}, detail=b,
+                     signature={'through': b['observed_through']})
+        ctx.note('an observer inside wait() / isalive() / close() (attribute hook): whenever `terminated` becomes true the exit code or '
+                 'the signal is already there (%d of 3 scenarios fail)' % len(bad))
+    return bad
+
+
 def run(ctx):
     pid = ctx.pid
     if ctx.replay:
@@ -805,6 +859,7 @@ def run(ctx):
         ctx.fail(v, {'case': c}, detail={'failing_event': at - 1, 'events': ev[:at - 1]}, signature=facts(c, ev, at))
     if pid == 'C09':
         run_stops_early(ctx)
+        status_before_flag(ctx)
     verd_of = {t['id']: ('ok', 0) for t in pool_ok}
     try:
         st_self = self_test(ctx, pool_ok, verd_of)
@@ -870,6 +925,13 @@ def replay(ctx):
         run_stops_early(ctx)
         bad = [f for f in ctx.failures if f.case.get('run_stops_by') == d['case']['run_stops_by']]
         print('replay: run() stopped by %s -> %s' % (d['case']['run_stops_by'], 'status differs from the child\'s exit code' if bad else 'ok'))
+        if bad:
+            print('VIOLATION property=%s replay=%s' % (ctx.pid, ctx.replay))
+            return 1
+        return 0
+    if 'status_before_flag' in d['case']:
+        bad = [b for b in status_before_flag(ctx, report=False) if b['observed_through'] == d['case']['status_before_flag']]
+        print('replay: %s' % (bad or 'ok'))
         if bad:
             print('VIOLATION property=%s replay=%s' % (ctx.pid, ctx.replay))
             return 1
